@@ -772,7 +772,12 @@ struct elements_iterator_t : boost::multi::random_accessable<elements_iterator_t
 	template<typename, class> friend struct elements_range_t;
 
 	constexpr elements_iterator_t(pointer base, layout_type const& lyt, difference_type n)
-	: base_{base}, l_{lyt}, n_{n}, xs_{l_.extensions()}, ns_{lyt.is_empty()?indices_type{}:xs_.from_linear(n)} {}
+	: base_{base}, l_{lyt}, n_{n}, xs_{l_.extensions()}, ns_{from_linear_(n)} {}
+
+	// an empty range (zero elements, whatever the individual extents) has a single position
+	constexpr auto from_linear_(difference_type n) const -> indices_type {
+		return (xs_.num_elements() == 0)?indices_type{}:xs_.from_linear(n);
+	}
 
  public:
 	elements_iterator_t() = default;
@@ -813,13 +818,13 @@ struct elements_iterator_t : boost::multi::random_accessable<elements_iterator_t
 
 	BOOST_MULTI_HD constexpr auto operator+=(difference_type n) -> elements_iterator_t& {
 		auto const nn = std::apply(xs_, ns_);
-		ns_ = xs_.from_linear(nn + n);
+		ns_ = from_linear_(nn + n);
 		n_ += n;
 		return *this;
 	}
 	BOOST_MULTI_HD constexpr auto operator-=(difference_type n) -> elements_iterator_t& {
 		auto const nn = std::apply(xs_, ns_);
-		ns_ = xs_.from_linear(nn - n);
+		ns_ = from_linear_(nn - n);
 		n_ -= n;
 		return *this;
 	}
@@ -848,7 +853,7 @@ struct elements_iterator_t : boost::multi::random_accessable<elements_iterator_t
 	BOOST_MULTI_HD constexpr auto operator*()  const -> reference {return base_  [std::apply(l_, ns_)];}
 	BOOST_MULTI_HD constexpr auto operator[](difference_type const& n) const -> reference {
 		auto const nn = std::apply(xs_, ns_);
-		return base_[std::apply(l_, xs_.from_linear(nn + n))];
+		return base_[std::apply(l_, from_linear_(nn + n))];
 	}  // explicit here is necessary for nvcc/thrust
 
 	#if defined(__clang__)
